@@ -568,6 +568,33 @@ def run(ctx):
 
     drive.for_each_case(ctx, 'generic-twins', max(20, ctx.budget), generic_twins, gen=lambda c, r: Ty('int'), seconds=60)
 
+    # one dataclass used on its own AND as a field of classes with class-level handlers, in either order of first use:
+    # standing alone it converts plainly, inside each enclosing class it converts with THAT class's handlers
+    def nested_class_handlers(i, rng, ty_unused, T_unused):
+        Inner = type(f"NI{next(_serial)}", (env.PaneBase,), {'__annotations__': {'x': int, 's': str}, 's': 'd', '__module__': __name__})
+        OuterA = type(f"NA{next(_serial)}", (env.PaneBase,), {'__annotations__': {'inner': Inner, 'y': int}, '__module__': __name__}, custom={int: c18.StampConv('A')})
+        OuterB = type(f"NB{next(_serial)}", (env.PaneBase,), {'__annotations__': {'inners': t.List[Inner]}, '__module__': __name__}, custom={int: c18.StampConv('B')})
+        uses = [('alone', lambda: Inner.from_data({'x': 1}), lambda r: [r.x], set()),
+                ('in-A', lambda: OuterA.from_data({'inner': {'x': 1}, 'y': 2}), lambda r: [r.inner.x, r.y], {'A'}),
+                ('in-B', lambda: OuterB.from_data({'inners': [{'x': 1}, {'x': 2}]}), lambda r: [z.x for z in r.inners], {'B'}),
+                ('alone-from_data', lambda: env.from_data({'x': 1}, Inner), lambda r: [r.x], set()),
+                ('alone-with-call-handler', lambda: env.from_data({'x': 1}, Inner, custom={int: c18.StampConv('call')}), lambda r: [r.x], {'call'})]
+        seq = [rng.choice(uses) for _ in range(rng.randint(4, 9))]
+        for step, (name, call, leaves, want) in enumerate(seq):
+            o = observe(call)
+            ctx.count('nested_class_handler_uses')
+            got = set(stamps_of(leaves(o.val))) if o.kind == 'value' else None
+            plain = o.kind == 'value' and not want and all(type(z) is int for z in leaves(o.val))
+            ctx.case(('nested-class-handlers', name, o.kind), nontrivial=True)
+            if o.kind != 'value' or (want and got != want) or (not want and not plain):
+                ctx.violation('handlers-are-those-of-this-use', 'nested-class-handlers', i,
+                              {'uses_in_order': [n for n, *_ in seq], 'failing_step': step, 'use': name, 'expected_stamps': sorted(want), 'outcome': o.brief(),
+                               'stamps_seen': sorted(got) if got is not None else None}, mech='class-converter-shared-across-handler-contexts')
+                return
+
+    from . import c18
+    drive.for_each_case(ctx, 'nested-class-handlers', max(20, ctx.budget), nested_class_handlers, gen=lambda c, r: Ty('int'), seconds=60)
+
     with mon_lock:
         ctx.count('cache_hits', stats['hits'])
         ctx.count('cache_misses', stats['misses'])
